@@ -57,7 +57,8 @@ func TestVerif_C10_APIHammer(t *testing.T) {
 			}
 		}
 		continual := rapid.IntRange(0, 3).Draw(rt, "continualGathering") == 0
-		desc := fmt.Sprintf("phase=%s continual=%v programs=%v", phase, continual, progs)
+		lite := rapid.IntRange(0, 3).Draw(rt, "liteControlled") == 0
+		desc := fmt.Sprintf("phase=%s continual=%v lite=%v programs=%v", phase, continual, lite, progs)
 		// world: FakeNet for gathering + a SimNet socket for inbound traffic and a scripted peer
 		fn := newFakeNet([]fnIface{{Name: "eth0", Up: true, Addrs: []string{"10.0.0.1"}}})
 		fn.stunServers["198.51.100.1:3478"] = "now"
@@ -69,11 +70,20 @@ func TestVerif_C10_APIHammer(t *testing.T) {
 				WithSTUNGatherTimeout(50 * time.Millisecond),
 			},
 		}
+		if lite {
+			// a lite agent in the controlled role (host candidates only)
+			cfg.controlling, cfg.lite, cfg.renomination = false, true, false
+			cfg.extra = []AgentOption{WithNet(fn), WithCandidateTypes([]CandidateType{CandidateTypeHost})} // (no URLs: host only)
+		}
 		if continual {
 			// continual gathering: a monitor goroutine watches the interface list and re-gathers
 			cfg.extra = append(cfg.extra, WithContinualGatheringPolicy(GatherContinually), WithNetworkMonitorInterval(300*time.Microsecond))
 		}
-		s, err := newSoloSim(cfg, []duoSockSpec{{Kind: simKindHost}, {Kind: simKindRelayish}}, []soloEpSpec{{Typ: CandidateTypeHost}, {Typ: CandidateTypeRelay}, {Typ: CandidateTypeHost}})
+		hammerLocals := []duoSockSpec{{Kind: simKindHost}, {Kind: simKindRelayish}}
+		if lite {
+			hammerLocals[1].Kind = simKindHost
+		}
+		s, err := newSoloSim(cfg, hammerLocals, []soloEpSpec{{Typ: CandidateTypeHost}, {Typ: CandidateTypeRelay}, {Typ: CandidateTypeHost}})
 		if err != nil {
 			rt.Fatalf("harness: %v", err)
 		}
@@ -289,7 +299,7 @@ func TestVerif_C10_APIHammer(t *testing.T) {
 				addViol("C10/atomicity/pair-with-stale-candidate", "after the program pair %d references a candidate that is not current (local %v remote %v)", p.id, fl, fr)
 			}
 		}
-		st.Record(vfHashStr(desc), mutators >= 2, "phase:"+phase, fmt.Sprintf("mutators:%d", min(mutators, 4)), fmt.Sprintf("continual-gathering:%v", continual))
+		st.Record(vfHashStr(desc), mutators >= 2, "phase:"+phase, fmt.Sprintf("mutators:%d", min(mutators, 4)), fmt.Sprintf("continual-gathering:%v", continual), fmt.Sprintf("lite:%v", lite))
 		if mutators >= 2 && st.WantSample() {
 			st.Sample(func() string { return desc })
 		}
@@ -405,6 +415,149 @@ func TestVerif_C10_StartRace(t *testing.T) {
 		ru, rp, _ := a.GetRemoteUserCredentials()
 		if ru != fmt.Sprintf("remoteUfrag%dxxxxxx", w) || rp != fmt.Sprintf("remotePassword%dxxxxxxxxxxxxxxxx", w) || a.isControlling.Load() != dial[w] {
 			st.Fail(rt, "C10/start/state-not-the-winners", "winner is call %d (dial=%v) but remote credentials are (%s,%s) and controlling=%v (%s)", w, dial[w], ru, rp, a.isControlling.Load(), desc)
+		}
+	})
+}
+
+// TestVerif_C10_GetterSnapshots: what a getter returned belongs to the caller — later operations of the agent
+// never rewrite it ("each call observes a state produced by whole preceding operations", and keeps observing
+// exactly that state).
+func TestVerif_C10_GetterSnapshots(t *testing.T) {
+	st := vfNewStats(t)
+	rapid.Check(t, func(rt *rapid.T) {
+		cfg := simAgentConfig{controlling: rapid.Bool().Draw(rt, "controlling"), maxBinding: 7, disconnected: time.Hour, keepalive: 2 * time.Second, explicitTimeout: true}
+		v6 := rapid.Bool().Draw(rt, "alsoV6")
+		locals := []duoSockSpec{{Kind: simKindHost}, {Kind: simKindSrflx}}
+		eps := []soloEpSpec{{Typ: CandidateTypeHost}, {Typ: CandidateTypeHost}, {Typ: CandidateTypeRelay}}
+		if v6 {
+			locals = append(locals, duoSockSpec{V6: true, Kind: simKindHost})
+			eps = append(eps, soloEpSpec{V6: true, Typ: CandidateTypeHost})
+		}
+		s, err := newSoloSim(cfg, locals, eps)
+		if err != nil {
+			rt.Fatalf("harness: %v", err)
+		}
+		defer s.close()
+		if err := s.ag.start(s.peer.ufrag, s.peer.pwd); err != nil {
+			rt.Fatalf("harness: %v", err)
+		}
+		a := s.ag.a
+		conn := &Conn{agent: a}
+		peerRole := "controlled"
+		if !cfg.controlling {
+			peerRole = "controlling"
+		}
+		type snap struct {
+			what   string
+			at     int
+			cands  []Candidate // the slice as returned
+			copyC  []Candidate
+			stats  []CandidatePairStats
+			copyS  []CandidatePairStats
+			infos  []CandidatePairInfo
+			copyI  []CandidatePairInfo
+		}
+		var snaps []snap
+		take := func(step int) {
+			switch rapid.IntRange(0, 4).Draw(rt, "getter") {
+			case 0:
+				c, _ := a.GetRemoteCandidates()
+				snaps = append(snaps, snap{what: "GetRemoteCandidates", at: step, cands: c, copyC: append([]Candidate{}, c...)})
+			case 1:
+				c, _ := a.GetLocalCandidates()
+				snaps = append(snaps, snap{what: "GetLocalCandidates", at: step, cands: c, copyC: append([]Candidate{}, c...)})
+			case 2:
+				x := a.GetCandidatePairsStats()
+				snaps = append(snaps, snap{what: "GetCandidatePairsStats", at: step, stats: x, copyS: append([]CandidatePairStats{}, x...)})
+			case 3:
+				x := conn.GetCandidatePairsInfo()
+				snaps = append(snaps, snap{what: "Conn.GetCandidatePairsInfo", at: step, infos: x, copyI: append([]CandidatePairInfo{}, x...)})
+			case 4:
+				c, _ := a.GetRemoteCandidates()
+				// the caller may also reorder what it got: that must not reach the agent
+				if len(c) >= 2 {
+					c[0], c[len(c)-1] = c[len(c)-1], c[0]
+				}
+			}
+		}
+		superseded := false
+		nOps := rapid.IntRange(2, 25).Draw(rt, "nOps")
+		for i := 0; i < nOps; i++ {
+			op := rapid.SampledFrom([]string{"snapshot", "snapshot", "inboundRequest", "inboundRequest", "signal", "signal", "tick", "answer", "restart"}).Draw(rt, "op")
+			s.purgeNonRequests()
+			switch op {
+			case "snapshot":
+				take(i)
+			case "inboundRequest":
+				ep := s.eps[rapid.IntRange(0, len(s.eps)-1).Draw(rt, "ep")]
+				to := s.ag.socks[rapid.IntRange(0, len(s.ag.socks)-1).Draw(rt, "to")]
+				if ep.priv.Addr().Is4() == to.priv.Addr().Is4() {
+					s.peerRequest(ep, to, false, nil, 1, peerRole, 77)
+				}
+			case "signal":
+				ei := rapid.IntRange(0, len(s.eps)-1).Draw(rt, "ep")
+				rc, _ := a.GetRemoteCandidates()
+				for _, r := range rc {
+					if r.Type() == CandidateTypePeerReflexive && r.addrPort() == s.eps[ei].pub {
+						superseded = true
+					}
+				}
+				_ = s.ag.addRemoteSync(s.epCandidate(ei, eps[ei]))
+			case "tick":
+				s.ag.tick()
+			case "answer":
+				for _, d := range s.agentRequests() {
+					s.removeInflight(d)
+					if ep := s.epByAddr(d.dst); ep != nil && !d.src.isClosed() {
+						s.answer(d, ep)
+					}
+				}
+			case "restart":
+				if rapid.IntRange(0, 3).Draw(rt, "really") != 0 {
+					continue
+				}
+				if err := s.ag.restart(); err != nil {
+					rt.Fatalf("harness: %v", err)
+				}
+				for k, l := range locals {
+					if _, err := s.ag.addLocal(k, l.V6, l.Kind, true); err != nil {
+						rt.Fatalf("harness: %v", err)
+					}
+				}
+				_ = a.SetRemoteCredentials(s.peer.ufrag, s.peer.pwd)
+			}
+			// every snapshot taken so far still shows what it showed when it was taken
+			for _, sn := range snaps {
+				for k := range sn.copyC {
+					if sn.cands[k] != sn.copyC[k] {
+						st.Fail(rt, "C10/atomicity/returned-slice-rewritten", "the slice returned by %s at step %d was rewritten by step %d (%s): element %d was %s, is now %s",
+							sn.what, sn.at, i, op, k, sn.copyC[k], sn.cands[k])
+					}
+				}
+				for k := range sn.copyS {
+					if sn.stats[k].LocalCandidateID != sn.copyS[k].LocalCandidateID || sn.stats[k].RemoteCandidateID != sn.copyS[k].RemoteCandidateID || sn.stats[k].State != sn.copyS[k].State {
+						st.Fail(rt, "C10/atomicity/returned-slice-rewritten", "the stats returned by %s at step %d were rewritten by step %d (%s)", sn.what, sn.at, i, op)
+					}
+				}
+				for k := range sn.copyI {
+					if sn.infos[k] != sn.copyI[k] {
+						st.Fail(rt, "C10/atomicity/returned-slice-rewritten", "the infos returned by %s at step %d were rewritten by step %d (%s)", sn.what, sn.at, i, op)
+					}
+				}
+			}
+		}
+		// the agent's own view is still well formed after callers reordered what they got (C06 invariant subset)
+		v := c06Take(a)
+		for i, r := range v.remotes {
+			for j := 0; j < i; j++ {
+				if v.remotes[j] == r {
+					st.Fail(rt, "C10/atomicity/caller-reordering-reached-the-agent", "remote candidate %s is listed twice inside the agent after a caller permuted the slice it was given", r)
+				}
+			}
+		}
+		st.Record(vfHash(len(snaps), nOps, superseded), superseded && len(snaps) > 0, fmt.Sprintf("prflx-superseded:%v", superseded))
+		if superseded && len(snaps) > 0 && st.WantSample() {
+			st.Sample(func() string { return fmt.Sprintf("%d snapshots over %d steps, a peer-reflexive candidate was superseded in between", len(snaps), nOps) })
 		}
 	})
 }
